@@ -190,6 +190,26 @@ mod scalar {
     }
     include!("suite.rs");
 }
+/// scalar-math with `glam-assert`: the second pass for the scalar copies (a quarter of the volume)
+#[cfg(not(feature = "core"))]
+mod scalar_asserting {
+    pub const VARIANT: &str = "scalar+glam-assert";
+    use ::glam_scalar_assert as glam;
+    pub fn raw3a(m: glam::BVec3A) -> Option<[u32; 4]> {
+        Some([m.x, m.y, m.z, 0])
+    }
+    pub fn raw4a(m: glam::BVec4A) -> Option<[u32; 4]> {
+        Some([m.x, m.y, m.z, m.w])
+    }
+    /// with scalar-math Vec4 compares into / selects by BVec4; BVec4A is only reachable through its constructors
+    #[allow(unused_imports)]
+    use self::mbvec4 as mvec4;
+    pub const A4_CMP_ROUTES: u64 = 0;
+    pub fn a4(_m: glam::BVec4) -> glam::BVec4A {
+        unreachable!()
+    }
+    include!("suite.rs");
+}
 #[cfg(feature = "core")]
 mod core_simd {
     pub const VARIANT: &str = "core";
@@ -218,6 +238,7 @@ fn main() {
         subs.extend(simd::subs(&args));
         subs.extend(scalar::subs(&args));
         subs.extend(asserting::subs(&args));
+        subs.extend(scalar_asserting::subs(&args).into_iter().map(|s| s.with_div(4)));
     }
     #[cfg(feature = "core")]
     {
